@@ -348,6 +348,7 @@ bool Terminal::Impl::executeRunHistoryCmd(SessionContext *s, const Args &args)
             return false;
         }
         s->curr_input = s->history.back();
+        s->cursor = s->curr_input.size();   //! the cursor belongs to the replaced line
         return execute(s);
     }
 
@@ -368,6 +369,7 @@ bool Terminal::Impl::executeRunHistoryCmd(SessionContext *s, const Args &args)
         }
 
         if (is_index_valid) {
+            s->cursor = s->curr_input.size();   //! the cursor belongs to the replaced line
             s->wp_conn->send(s->token, s->curr_input + "\r\n");
             return execute(s);
         } else
